@@ -431,7 +431,7 @@ def eval_cases(ctx, name, cases, outs, shard=40, strict=False):
     return res.get("MM", []), res["SM"]
 
 
-def ddmin(items, fails, budget=40, keep_first=0, seconds=100):
+def ddmin(items, fails, budget=40, keep_first=0, seconds=60):
     """delta debugging on a list; `fails(list)` -> bool; the first keep_first items are kept;
     stops after `budget` attempts or `seconds` of wall time"""
     import time as _t
